@@ -1,5 +1,5 @@
 (* Lemmas about the hand model of the backend request server (Model.BeServer). *)
-From VV Require Import Base.Bits Base.Rt Base.Val Gen.GenConsts Gen.GenLayout Gen.GenFns Model.Transport Model.BeServer.
+From VV Require Import Base.Bits Base.Rt Base.Val Gen.GenConsts Gen.GenLayout Gen.GenFns Gen.GenVrfd Model.Transport Model.BeServer.
 From Coq Require Import ZArith ZifyBool ZifyN Permutation.
 Open Scope string_scope.
 Open Scope list_scope.
@@ -163,7 +163,7 @@ Lemma vring_fd_request_file buf files idx file :
   vring_fd_request buf files = ROk (idx, file) -> file = take_single files.
 Proof.
   unfold vring_fd_request. destruct (_ || _); [discriminate|].
-  destruct (_ || _); [discriminate|]. intros H. injection H as _ <-. reflexivity.
+  destruct (vrf_reject _ _ _); [discriminate|]. intros H. injection H as _ <-. reflexivity.
 Qed.
 
 Definition fds_ok (files : option (list N)) (out : be_out) : Prop :=
